@@ -7,6 +7,7 @@ import (
 	"errors"
 	"fmt"
 	"log"
+	"math"
 	"net/http"
 	"net/http/httptest"
 	"os"
@@ -42,6 +43,7 @@ type Op struct {
 	Cred    string `json:"cred,omitempty"`           // new-client: pw pw-wrong kt kt-wrong ccache; basic: right wrong malformed
 	PA      bool   `json:"assume_preauth,omitempty"` // new-client
 	FAST    bool   `json:"fast,omitempty"`           // new-client: leave the PA-FX-FAST negotiation padata on
+	Odd     string `json:"odd,omitempty"`            // new-client: a caller-supplied value no JSON rendering can hold: valid-until | auth-time (year 10000) | attr-nan | attr-func | kt-timestamp (keytab entry stamped year 10000)
 	SPN     string `json:"spn,omitempty"`            // known | unknown
 	Fault   string `json:"fault,omitempty"`          // "<AS|TGS>:<name>": how the KDC reply of that exchange is damaged during this op
 	Code    int    `json:"code,omitempty"`           // fault krb-error: the code
@@ -440,6 +442,34 @@ func (w *seqWorld) newClient(op Op) {
 		})
 	default:
 		w.cl = client.NewWithPassword("alice", seqRealm, w.pw, w.cfg, w.clOpts...)
+	}
+	if w.cl == nil || w.cl.Credentials == nil {
+		return
+	}
+	// values an application may set through the exported API and that encoding/json refuses: the diagnostic surfaces must
+	// cope with them without falling back to a rendering that shows more
+	far := time.Date(10000, 1, 2, 3, 4, 5, 0, time.UTC)
+	switch op.Odd {
+	case "":
+	case "valid-until":
+		w.cl.Credentials.SetValidUntil(far)
+	case "auth-time":
+		w.cl.Credentials.SetAuthTime(far)
+	case "attr-nan":
+		w.cl.Credentials.SetAttributes(map[string]interface{}{"load": math.NaN()})
+	case "attr-func":
+		w.cl.Credentials.SetAttributes(map[string]interface{}{"callback": func() {}})
+	case "kt-timestamp":
+		if kt := w.cl.Credentials.Keytab(); kt != nil {
+			for i := range kt.Entries {
+				kt.Entries[i].Timestamp = far
+			}
+		}
+	default:
+		w.cap.err("harness:odd", fmt.Errorf("bad odd value %q", op.Odd))
+	}
+	if op.Odd != "" {
+		w.label("client-odd:" + op.Odd)
 	}
 }
 
